@@ -381,7 +381,32 @@ fn calib(kind: u64, d: &Data, h: &Hp, f: &FitOut, converged: bool, stream: &str,
     (worst_tol, worst_floor)
 }
 
-struct Ctx { out: Out, id: u64, replay_cap: u32 }
+/// input class of the "coefficient band" finding (decided from the input alone, in binary64): from the start
+/// w = 0, r = y - intercept every non-skipped feature's coordinate minimiser (multi-task: the norm of its row)
+/// is at most EPSILON and at least one is non-zero.  Then `abs_diff_ne!(w_j, 0)` is false for every value the
+/// solver ever stores, the residual stays y for the whole run, and each coefficient is the minimiser of its
+/// own one-feature problem (wrong on correlated features).
+fn band_start(kind: u64, d: &Data, h: &Hp) -> bool {
+    let (n, p, t) = (d.n(), d.p(), d.t());
+    if n == 0 || p == 0 || t == 0 { return false; }
+    let eps = if kind == K_ENET32 { f32::EPSILON as f64 } else { f64::EPSILON };
+    let l1 = h.l1r * h.pen * n as f64;
+    let l2 = (1.0 - h.l1r) * h.pen * n as f64;
+    let mean: Vec<f64> = (0..t).map(|k| if h.icpt { d.y.iter().map(|r| r[k]).sum::<f64>() / n as f64 } else { 0.0 }).collect();
+    let mut any = false;
+    for j in 0..p {
+        let nj: f64 = d.x.iter().map(|row| row[j] * row[j]).sum();
+        if nj <= eps { continue; }
+        let c: Vec<f64> = (0..t).map(|k| (0..n).map(|i| d.x[i][j] * (d.y[i][k] - mean[k])).sum::<f64>()).collect();
+        let cn: f64 = c.iter().map(|v| v * v).sum::<f64>().sqrt();
+        let wn = (cn - l1).max(0.0) / (nj + l2);
+        if !(wn <= eps) { return false; }
+        if wn > 0.0 { any = true; }
+    }
+    any
+}
+
+struct Ctx { out: Out, id: u64, replay_cap: u32, replay_cap32: usize }
 
 impl Ctx {
     fn tags(&self, kind: u64, d: &Data, h: &Hp, extra: &[&str]) -> Vec<String> {
@@ -395,6 +420,11 @@ impl Ctx {
         if kind != K_OLS && (0..d.p()).any(|j| { let q: f64 = d.x.iter().map(|row| row[j] * row[j]).sum(); q > 0.0 && q <= f64::EPSILON }) {
             t.push("tiny_column".into());
         }
+        // every coefficient (row) the solver can ever compute lies in the band 0 < |w_j| <= EPSILON that
+        // `abs_diff_ne!(w[j], 0)` takes for zero: started from w = 0, r = y, the coordinate minimisers
+        // soft(x_j.y, l1) / (|x_j|^2 + l2) of ALL non-skipped features are <= EPSILON in magnitude (and not all 0),
+        // so the residual is never updated and every later sweep recomputes the same values from r = y
+        if kind != K_OLS && band_start(kind, d, h) { t.push("coef_band".into()); }
         for e in extra { t.push(e.to_string()); }
         t
     }
@@ -438,8 +468,10 @@ impl Ctx {
             }
             Ok(f) => {
                 let converged = kind == K_OLS || f.steps < h.maxit;
-                // binary32 arithmetic is emulated in Coq (about 60 us per operation): replay only short runs
-                let replay = if kind == K_ENET32 { (f.steps as usize) * d.n() * d.p() <= 4000 } else { kind != K_OLS && f.steps <= self.replay_cap };
+                // binary32 arithmetic is emulated in Coq (SpecFloat, about 60 us per operation): the replay is bounded by
+                // the number of coefficient updates times n (the stream keeps n <= 22, p <= 5, budget <= 1000 sweeps, so
+                // the quick-tier bound already covers every run of the stream, the 1000-sweep ridge runs included)
+                let replay = if kind == K_ENET32 { (f.steps as usize) * d.n() * d.p() <= self.replay_cap32 } else { kind != K_OLS && f.steps <= self.replay_cap };
                 // a run that used its whole budget may still sit on a fixed point of the sweep: two more sweeps
                 // leave every coefficient bit-identical (this is how ridge and penalty-0 fits end: their duality
                 // gap degenerates to the primal objective and never falls under the tolerance)
@@ -470,6 +502,10 @@ impl Ctx {
                 if kind != K_OLS {
                     self.out.bump(if converged { "solver_converged" } else if fixed_point { "solver_budget_exhausted_at_fixed_point" } else { "solver_budget_exhausted_not_converged" });
                     self.out.bump(if replay { "replayed_bit_exactly" } else { "oracle_only_too_many_sweeps" });
+                    if kind == K_ENET32 {
+                        self.out.bump(if replay { "f32_replayed_bit_exactly" } else { "f32_oracle_only" });
+                        if replay && f.steps >= 100 { self.out.bump("f32_replayed_100_or_more_sweeps"); }
+                    }
                     let nz = f.w.iter().filter(|r| r.iter().any(|v| *v != 0.0)).count();
                     self.out.bump(if nz == 0 { "coef_all_zero" } else if nz == d.p() { "coef_all_nonzero" } else { "coef_some_zero" });
                 }
@@ -510,7 +546,7 @@ fn main() {
     let mut rng = Sm64::new(args.seed);
     let thorough = args.tier == "thorough";
     let out = Out::new(&args.out, args.shards, "C11.Corr", "case", args.only);
-    let mut cx = Ctx { out, id: 0, replay_cap: if thorough { 20000 } else { 1000 } };
+    let mut cx = Ctx { out, id: 0, replay_cap: if thorough { 20000 } else { 1000 }, replay_cap32: 160000 };
     let maxn = if thorough { 40 } else { 26 };
 
     // ---- stream S: exhaustive small single-feature problems on an integer lattice (ties at the l1 threshold,
@@ -604,12 +640,12 @@ fn main() {
     }
 
     // ---- stream F: elastic net at f32 (same generic code, binary32 arithmetic replayed through SpecFloat) ----
-    let nf = if thorough { 260 } else { 36 };
+    let nf = if thorough { 400 } else { 96 };
     for _ in 0..nf {
         let mut r = rng.fork();
         let fam = *r.pick(&[0u64, 1, 2, 3, 6]);
-        let p = 1 + r.below(3) as usize;
-        let mut d = gen_data(&mut r, fam, 1, 14, Some(p));
+        let p = 1 + r.below(5) as usize;
+        let mut d = gen_data(&mut r, fam, 1, 22, Some(p));
         // every value must be an f32 value
         for row in d.x.iter_mut() { for v in row.iter_mut() { *v = (*v as f32) as f64; } }
         for row in d.y.iter_mut() { for v in row.iter_mut() { *v = (*v as f32) as f64; } }
